@@ -630,6 +630,48 @@ fn t_spurious() -> Result<String, String> {
     Ok(msg)
 }
 
+fn late_body(o: Obs<(Option<bool>, u64)>, on: bool) {
+    // a timed waiter is notified before its deadline; with late wake-ups it may observe
+    // "not timed out" together with more elapsed time than it asked for
+    ctl::spurious(on);
+    let st = Arc::new(Mutex::new(false));
+    let cv = Arc::new(Condvar::new());
+    let (st2, cv2, o2) = (st.clone(), cv.clone(), o.clone());
+    let h = thread::spawn(move || {
+        let g = st2.lock().unwrap();
+        let t0 = ctl::clock_ns();
+        let (_g, r) = cv2.wait_timeout(g, Duration::from_millis(10)).unwrap();
+        *o2.lock().unwrap() = (Some(r.timed_out()), ctl::clock_ns() - t0);
+    });
+    ctl::settle();
+    ctl::sleep(Duration::from_millis(4));
+    {
+        let mut g = st.lock().unwrap();
+        *g = true;
+    }
+    cv.notify_one();
+    h.join().unwrap();
+}
+
+fn t_late() -> Result<String, String> {
+    let mut msg = String::new();
+    for on in [false, true] {
+        for bound in [0u32, 1] {
+            let (s, r) = explore_all::<(Option<bool>, u64), _>(Mode::Chess, Some(bound), move |o| late_body(o, on));
+            let late = r.iter().filter(|(_, ob)| ob.0 == Some(false) && ob.1 > 10_000_000).count();
+            let want = on && bound >= 1;
+            if (late > 0) != want {
+                return Err(format!("late wake-ups on={} bound={}: {} executions report 'notified' after more than the timeout, of {}", on, bound, late, s.execs));
+            }
+            if r.iter().any(|(res, _)| res.end != End::Clean) {
+                return Err("an execution did not end cleanly".into());
+            }
+            msg += &format!("on={} b={}: {}/{} late; ", on, bound, late, s.execs);
+        }
+    }
+    Ok(msg)
+}
+
 fn main() {
     let tests: Vec<(&str, fn() -> Result<String, String>)> = vec![
         ("lost-update@bound", t_lost_update),
@@ -645,6 +687,7 @@ fn main() {
         ("panic-recording", t_panic_recorded),
         ("window", t_window),
         ("spurious-wakeup", t_spurious),
+        ("late-wakeup", t_late),
     ];
     let mut failed = 0;
     for (name, f) in tests {
